@@ -90,6 +90,8 @@ def dispatch(E, f, args, node):
             raise Unsupported('method %s (line %s)' % (qual, getattr(node, 'lineno', '?')))
         return h(E, f.bound, args, node)
     if qual in E.contracts and not E.spec_mode:
+        if E.contracts[qual].get('inline'):
+            return call_inline(E, qual, args, node)
         return call_contract(E, qual, args, node)
     h = LIB.get(qual)
     if h is not None:
@@ -1347,3 +1349,57 @@ def np_size(E, args, node):
             r = t if r is None else r * t
         return Z(z3.simplify(r), INT)
     raise Unsupported('np.size(%r)' % (v,))
+
+
+def call_inline(E, qual, args, node):
+    """a private helper without loops is executed in place (its body is then part of the caller's verification
+    conditions; no contract is assumed for it)"""
+    mi, fdef = E.sources.func(qual)
+    if fdef is None:
+        raise Unsupported('callee %s not found' % qual)
+    bound = bind_params(E, qual, args, node)
+    saved_env = E.st.env
+    saved_stack = E.mod_stack
+    E.st.env = dict(bound)
+    E.mod_stack = E.mod_stack + [mi]
+    try:
+        try:
+            E.exec_block(fdef.body)
+            result = None
+        except ReturnSig as r:
+            result = r.value
+    finally:
+        E.st.env = saved_env
+        E.mod_stack = saved_stack
+    return result
+
+
+@libfn('operator.gt', 'operator.lt')
+def op_gtlt(E, args, node):
+    name = None
+    f = E.eval(node.func)
+    op = ast.Gt() if f.qual.endswith('gt') else ast.Lt()
+    return E.compare(op, args.pos[0], args.pos[1], node)
+
+
+@libfn('numpy.median')
+def np_median(E, args, node):
+    """median of a non-empty int sequence: a real between the smallest and the largest element (for strictly increasing
+    index arrays: between the first and the last)"""
+    from .values import SeqSort
+    v = args.pos[0]
+    if isinstance(v, PyList) and len(v.items) == 1:
+        return Z(to_real(lift(v.items[0])), REAL)
+    if isinstance(v, Arr) and v.ty == INT:
+        f = E.seq_fn('seq_median', SeqSort, z3.RealSort())
+        r = f(E.seq(v))
+        n = v.n if not isinstance(v.n, int) else z3.IntVal(v.n)
+        if not E.spec_mode:
+            E.oblige('lib-pre', n >= 1, node, 'median of a non-empty array')
+        meta = getattr(v, 'meta', {})
+        if 'g' in meta:          # strictly increasing indices
+            first = to_int(E.rd(v, 0))
+            last = to_int(E.rd(v, n - 1))
+            E.assume(z3.Implies(n >= 1, z3.And(z3.ToReal(first) <= r, r <= z3.ToReal(last))))
+        return Z(r, REAL)
+    raise Unsupported('np.median(%r)' % (v,))
